@@ -230,6 +230,7 @@ func init() {
 				w.Case(fmt.Sprintf("yaml-presentation/set=%x", set), func(c *C) {
 					c.Distinct("all", c.ID)
 					w.ShapeInvarianceOK(c, c.ID, []File{{"c.yaml", c06build(set, 0).YAML()}}, set == 0)
+					w.NameInvariance(c, c.ID, c06build(set, 0))
 				})
 			}
 			for _, variant := range []int{0, 1, 2, 4, 5, 6} {
